@@ -61,6 +61,12 @@ class SearchView:
             if d is None or d.how != 'assign':
               raise Undecided('pushed object %s has no unique definition in %s' % (item.id, name))
             dn, ctor = d.node, d.value
+            hops = 0
+            while isinstance(ctor, ast.Name) and hops < 4:      # design = result_of_helper = TBRMMDesign(...)
+              d2 = self.rd.single_def(dn, ctor.id)
+              if d2 is None or d2.how != 'assign' or d2.value is None:
+                break
+              dn, ctor, hops = d2.node, d2.value, hops + 1
           if not (isinstance(ctor, ast.Call) and norm(ctor.func).split('.')[-1] == 'TBRMMDesign'):
             self.pushed.append(Pushed.__new__(Pushed))
             p = self.pushed[-1]
